@@ -4,9 +4,11 @@ import (
 	"encoding/json"
 	"fmt"
 	"math"
+	"math/rand"
 	"os"
 	"os/exec"
 	"path/filepath"
+	"strconv"
 	"strings"
 	"time"
 	"unicode"
@@ -15,6 +17,7 @@ import (
 	"gopkg.in/yaml.v3"
 
 	"github.com/Vedant9500/WTF/internal/database"
+	"github.com/Vedant9500/WTF/internal/embedding"
 	"github.com/Vedant9500/WTF/internal/nlp"
 	"github.com/Vedant9500/WTF/internal/recovery"
 )
@@ -31,12 +34,13 @@ type docInfo struct {
 }
 
 type corpusT struct {
-	name string
-	db   *database.Database
-	info []docInfo
-	idx  map[*database.Command]int
-	cmds []database.Command // as given (before loading)
-	file string
+	name      string
+	db        *database.Database
+	info      []docInfo
+	idx       map[*database.Command]int
+	cmds      []database.Command // as given (before loading)
+	file      string
+	byContent map[string][]int
 	// fresh builds another copy of a database that does not come from a file (struct literal, replaced at run time, built-in fallback)
 	fresh func() *database.Database
 }
@@ -229,6 +233,19 @@ func uniqCommands() []database.Command {
 			k++
 		}
 	}
+	// a plain command and a longer pipeline ending alike: an inner fragment of the word matches both with a quality
+	// below zero, the pipeline worse
+	for _, w := range []string{"glimvarn", "trobzuki"} {
+		out = append(out, database.Command{Command: "zqfa slow helper for " + w}, database.Command{Command: "zqfb slow helper for " + w + " | sort | uniq -c | head -5"})
+	}
+	// pipelines that contain the letters of a word far apart: worse matches than the entry of that word
+	for i, w := range uniqWords[:4] {
+		var parts []string
+		for _, ch := range w {
+			parts = append(parts, string(ch)+"yy")
+		}
+		out = append(out, database.Command{Command: fmt.Sprintf("zqp%du %s | sort", i, strings.Join(parts, " ")), Description: "Scattered", Keywords: []string{"scattered"}})
+	}
 	return out
 }
 
@@ -247,7 +264,90 @@ func platCommands() []database.Command {
 			}
 		}
 	}
+	// commands that are no pipelines although they contain a lone '&' or '>' (background job, redirection)
+	for i, cmd := range []string{"zqbg frobnicate --widget 1 &", "zqout frobnicate --widget 2 > out.txt", "zqerr frobnicate --widget 3 2>&1", "zqin frobnicate --widget 4 < in.txt"} {
+		out = append(out, database.Command{Command: cmd, Description: fmt.Sprintf("Frobnicate the widget quietly %d", i), Keywords: []string{"frobnicate", "widget"}})
+	}
 	return out
+}
+
+// synthIndex: an 8-dimensional embedding index for the words of the synthetic queries and n commands
+func synthIndex(n int, damaged bool) *embedding.Index {
+	r := rand.New(rand.NewSource(77))
+	dim := 8
+	idx := &embedding.Index{Dimension: dim, WordVectors: map[string][]float32{}}
+	vec := func() []float32 {
+		v := make([]float32, dim)
+		for j := range v {
+			v[j] = float32(r.NormFloat64())
+		}
+		return v
+	}
+	for _, w := range []string{"frobnicate", "widget", "frobnicte", "number", "item", "delete", "find", "zq1", "qqqqzzzz"} {
+		idx.WordVectors[w] = vec()
+	}
+	for k := 0; k < n; k++ {
+		v := vec()
+		if damaged {
+			switch k % 5 {
+			case 0:
+				v[k%dim] = float32(math.NaN())
+			case 1:
+				v[k%dim] = float32(math.Inf(1))
+			case 2:
+				v[k%dim] = math.MaxFloat32
+			}
+		}
+		idx.CmdEmbeddings = append(idx.CmdEmbeddings, v)
+	}
+	if damaged {
+		idx.WordVectors["widget"][3] = float32(math.NaN())
+	}
+	return idx
+}
+
+func nearTieCommands(variant int) []database.Command {
+	var out []database.Command
+	ws := []string{"alphaword", "bravoword", "charlieword"}
+	perms := [][3]int{{0, 1, 2}, {0, 2, 1}, {1, 0, 2}, {1, 2, 0}, {2, 0, 1}, {2, 1, 0}}
+	k := 0
+	for rep := 0; rep < 1+variant%3; rep++ {
+		for pi := range perms {
+			pm := perms[(pi*(1+variant%5)+variant)%len(perms)]
+			k++
+			out = append(out, database.Command{Command: fmt.Sprintf("zq%dx %s", k, ws[pm[0]]), Description: "Handles " + ws[pm[1]], Keywords: []string{ws[pm[2]]}})
+		}
+		for f := 0; f < variant%4+rep; f++ { // fillers shift the averages
+			k++
+			out = append(out, database.Command{Command: fmt.Sprintf("zq%dx filler%d", k, k), Description: fmt.Sprintf("Filler number %d about deltaword", k), Keywords: []string{"deltaword"}})
+		}
+	}
+	return out
+}
+
+func mergedCorpus() *corpusT {
+	mainF := filepath.Join(tmpDir(), "merged-main.yml")
+	persF := filepath.Join(tmpDir(), "merged-personal.yml")
+	var pers []database.Command
+	for i := 0; i < 7; i++ {
+		pers = append(pers, database.Command{Command: fmt.Sprintf("grep ERROR app%d.log | sort | uniq -c", i), Description: "errors - 3-step pipeline",
+			Keywords: []string{"pipeline", "workflow", "frobnicate"}, Pipeline: true})
+	}
+	for _, x := range []struct {
+		f string
+		c []database.Command
+	}{{mainF, mixCommands()[:12]}, {persF, pers}} {
+		b, _ := yaml.Marshal(x.c)
+		os.WriteFile(x.f, b, 0o644)
+	}
+	mk := func() *database.Database {
+		db, err := database.LoadDatabaseWithPersonal(mainF, persF)
+		if err != nil {
+			fatal("merged corpus: %v", err)
+		}
+		return db
+	}
+	return builtCorpus("merged", mk)
 }
 
 var corpusCache = map[string]*corpusT{}
@@ -303,6 +403,15 @@ func getCorpus(name string) *corpusT {
 			cmds = append(cmds, database.Command{Command: "zq" + string(ch) + "x " + w + " | sort", Description: "Handle the " + w + " thing", Keywords: []string{w}})
 		}
 		c = loadCorpus("alpha", cmds)
+	case "sem", "semnan": // the mix corpus with an embedding index attached (semnan: damaged vectors - NaN, +Inf, huge components)
+		c = loadCorpus(name, mixCommands())
+		c.db.VerifAttachEmbeddings(synthIndex(len(c.db.Commands), name == "semnan"))
+	case "neartie0", "neartie1", "neartie2", "neartie3", "neartie4", "neartie5", "neartie6", "neartie7", "neartie8", "neartie9", "neartie10", "neartie11":
+		// the same three words in rotated fields: mathematically equal scores whose float sums differ in the last bits
+		k, _ := strconv.Atoi(strings.TrimPrefix(name, "neartie"))
+		c = loadCorpus(name, nearTieCommands(k))
+	case "merged": // a main file plus a notebook holding several entries that tie exactly (what save-pipeline produces)
+		c = mergedCorpus()
 	case "uniq":
 		c = loadCorpus("uniq", uniqCommands())
 	case "plat":
@@ -341,7 +450,7 @@ type scenario struct {
 	Prime string `json:"prime,omitempty"`
 }
 
-var primeKinds = []string{"nocross", "allplat", "ponly", "limit0", "limitbig", "nlp", "plats", "thr"}
+var primeKinds = []string{"nocross", "allplat", "ponly", "limit0", "limitbig", "nlp", "plats", "thr", "limit1"}
 
 // primed: the options of the priming search (the scenario with one option changed)
 func (s scenario) primed() scenario {
@@ -356,6 +465,8 @@ func (s scenario) primed() scenario {
 		t.POnly = !s.POnly
 	case "limit0":
 		t.Limit = 0
+	case "limit1":
+		t.Limit = 1
 	case "limitbig":
 		t.Limit = s.Limit + 7
 	case "nlp":
@@ -595,6 +706,44 @@ func (in *interner) answerID(c *corpusT, hs []hit) int {
 		fmt.Fprintf(&b, "%d:%x;", d, math.Float64bits(h.score))
 	}
 	return in.str(in.answer, b.String())
+}
+
+// answerIDIn: identity of an answer given by c2, another copy of the same database, expressed in the document numbering
+// of c (entries are matched by content - the k-th entry with some content in c2 is the k-th with that content in c - so a
+// copy that holds the entries in a different order answers differently)
+func (in *interner) answerIDIn(c, c2 *corpusT, hs []hit) int {
+	occ := func(x *corpusT) map[string][]int {
+		m := map[string][]int{}
+		for i := range x.db.Commands {
+			k := contentKey(&x.db.Commands[i])
+			m[k] = append(m[k], i)
+		}
+		return m
+	}
+	if c.byContent == nil {
+		c.byContent = occ(c)
+	}
+	if c2.byContent == nil {
+		c2.byContent = occ(c2)
+	}
+	var b strings.Builder
+	for _, h := range hs {
+		d := -1
+		if j, ok := c2.idx[h.cmd]; ok {
+			k := contentKey(h.cmd)
+			for rank, jj := range c2.byContent[k] {
+				if jj == j && rank < len(c.byContent[k]) {
+					d = c.byContent[k][rank]
+				}
+			}
+		}
+		fmt.Fprintf(&b, "%d:%x;", d, math.Float64bits(h.score))
+	}
+	return in.str(in.answer, b.String())
+}
+
+func contentKey(c *database.Command) string {
+	return c.Command + "\x00" + c.Description + "\x00" + strings.Join(c.Keywords, ",") + "\x00" + strings.Join(c.Platform, ",")
 }
 
 func cmpSeq(hs []hit) []int {
